@@ -120,6 +120,9 @@ func (fc FaultCase) ID() string {
 	if fc.AllDev {
 		craft += "|alldev"
 	}
+	if fc.Sc.Concurrency > 0 {
+		craft += fmt.Sprintf("|conc%d", fc.Sc.Concurrency)
+	}
 	if fc.Craft != nil && fc.Craft.Sizes != "" {
 		craft += ":" + fc.Craft.DField + ":" + fc.Craft.Sizes
 	}
